@@ -402,10 +402,80 @@ func documents(r *sim.R) {
 	r.StateOps += 2
 }
 
+// attachments: a few configs attached to each other with SetChild in every way the signature
+// allows - by name, by dotted path, at an index, a config below two parents, a child handle
+// below its own root, a config below itself. Whatever SetChild answers, no config may end up
+// containing itself: every read of every config returns.
+func attachments(r *sim.R) {
+	t := r.T
+	opts := []ucfg.Option{ucfg.PathSep(".")}
+	seeds := []interface{}{
+		map[string]interface{}{},
+		map[string]interface{}{"a": map[string]interface{}{"b": map[string]interface{}{"x": uint64(1)}}},
+		map[string]interface{}{"l": []interface{}{map[string]interface{}{"x": uint64(1)}, uint64(2)}},
+		[]interface{}{map[string]interface{}{"a": uint64(1)}},
+	}
+	var pool []*ucfg.Config
+	for i := 0; i < 2+t.Choose(3, "n-configs"); i++ {
+		c, err := ucfg.NewFrom(seeds[t.Choose(len(seeds), "config-seed")], opts...)
+		if err != nil {
+			return
+		}
+		pool = append(pool, c)
+	}
+	names := []string{"a", "b", "a.b", "a.b.c", "l", "l.0", "loop", ""}
+	r.Fault("configs attached to each other in every way SetChild allows")
+	for step := 0; step < 2+t.Choose(6, "n-attachments"); step++ {
+		r.NextStep()
+		if t.Chance(1, 4, "take-child-handle") {
+			p := pool[t.Choose(len(pool), "handle-of")]
+			n := names[t.Choose(len(names)-1, "handle-name")]
+			var h *ucfg.Config
+			call(r, "Child", func() { h, _ = p.Child(n, -1, opts...) })
+			if h != nil {
+				pool = append(pool, h)
+				r.Tracef("c%d := c?.Child(%q)", len(pool)-1, n)
+			}
+			continue
+		}
+		di, si := t.Choose(len(pool), "attach-to"), t.Choose(len(pool), "attach-what")
+		n := names[t.Choose(len(names), "attach-name")]
+		ix := []int{-1, -1, 0, 1}[t.Choose(4, "attach-idx")]
+		var err error
+		call(r, "SetChild", func() { err = pool[di].SetChild(n, ix, pool[si], opts...) })
+		r.Tracef("c%d.SetChild(%q, %d, c%d) = %v", di, n, ix, si, err)
+		r.StateOps++
+		for i, c := range pool {
+			c := c
+			call(r, "Path", func() { _ = c.Path(".") })
+			call(r, "FlattenedKeys", func() { c.FlattenedKeys(opts...) })
+			call(r, "Unpack", func() {
+				var m map[string]interface{}
+				var l []interface{}
+				if c.IsArray() && !c.IsDict() {
+					c.Unpack(&l, opts...)
+				} else {
+					c.Unpack(&m, opts...)
+				}
+			})
+			call(r, "Merge", func() { ucfg.New().Merge(c, opts...) })
+			_ = i
+		}
+	}
+	r.Probe("hostile: configs attached to each other, every config read after every attachment")
+}
+
 // Run executes one hostile run.
 func Run(r *sim.R) {
 	r.Order = r.T.Weighted([]int{3, 1, 1}, "order-policy")
-	switch r.T.Weighted([]int{4, 3, 2, 3, 3, 2, 3, 3, 4, 1, 1}, "family") {
+	switch r.T.Weighted([]int{4, 3, 2, 3, 3, 2, 3, 3, 4, 1, 1, 2, 1}, "family") {
+	case 11:
+		attachments(r)
+	case 12:
+		// merges over references: destinations whose settings refer to their own sections (and to
+		// themselves), sources that do the same - under the monitors
+		world.RefMerge(r)
+		r.Probe("hostile: merges over references under the monitors")
 	case 8:
 		typedTargets(r)
 	case 9:
